@@ -11,6 +11,7 @@
   Finite-field Diffie-Hellman is not assumed: it is proved (`dh_agree`).
 -/
 import PV.Model.KexLemmas
+import PV.Model.Connect
 import PV.Props.C39
 namespace PV.Props.C06
 open PV PV.Wire PV.Kex
@@ -877,6 +878,69 @@ theorem altered_reply_aborts (c : Env) (g : Group) (st : GrpSt) (ks sig ks' sig'
       apply halt
       rw [e1, e3, this.2.2.2.2.2.2.1]
     · simp
+
+/-! ## `Transport.connect(hostkey=…)`: a pinned host key is compared before anything else happens -/
+
+open PV.Connect in
+/-- pinned key differs from the key the server showed (and GSS-API key exchange, which authenticates
+    the host by other means, was not requested): `connect` raises — whatever credentials were or
+    were not passed, so no auth_* call is made and the call does not return normally -/
+theorem pinned_mismatch_raises (o : Opts) (hk server : HostKey) (startOk : Bool)
+    (hpin : o.hostkey = some hk) (hgss : o.gssKex = false)
+    (hdiff : server.name ≠ hk.name ∨ server.blob ≠ hk.blob) :
+    connect o startOk server = .raised := by
+  unfold connect
+  cases startOk <;> simp [hpin, hgss, hdiff]
+
+open PV.Connect in
+/-- conversely: whenever `connect` goes on (authenticates or returns), either no key was pinned, or
+    GSS-API key exchange was requested, or the server's key is exactly the pinned one -/
+theorem proceeds_only_if_pin_ok (o : Opts) (server : HostKey) (startOk : Bool)
+    (h : connect o startOk server ≠ .raised) :
+    startOk = true ∧ (o.hostkey = none ∨ o.gssKex = true ∨ o.hostkey = some server) := by
+  unfold connect at h
+  cases startOk with
+  | false => simp at h
+  | true =>
+    refine ⟨rfl, ?_⟩
+    cases hk : o.hostkey with
+    | none => exact Or.inl rfl
+    | some k =>
+      right
+      rw [hk] at h
+      simp only [Bool.not_true, Bool.false_eq_true, if_false] at h
+      by_cases hg : o.gssKex = true
+      · exact Or.inl hg
+      · right
+        by_cases hd : server.name ≠ k.name ∨ server.blob ≠ k.blob
+        · simp [hg, hd] at h
+        · have h1 : server.name = k.name := by
+            by_cases a : server.name = k.name
+            · exact a
+            · exact absurd (Or.inl a) hd
+          have h2 : server.blob = k.blob := by
+            by_cases a : server.blob = k.blob
+            · exact a
+            · exact absurd (Or.inr a) hd
+          cases server; cases k; simp_all
+
+open PV.Connect in
+/-- the check does not depend on the credentials: same verdict with and without them -/
+theorem pin_check_independent_of_credentials (o o' : Opts) (server : HostKey) (startOk : Bool)
+    (hk : o.hostkey = o'.hostkey) (hg : o.gssKex = o'.gssKex) :
+    (connect o startOk server = .raised ↔ connect o' startOk server = .raised) := by
+  unfold connect
+  cases startOk
+  · simp
+  · rw [hk, hg]
+    cases o'.hostkey with
+    | none => simp [authStep]; constructor <;> (intro h; split at h <;> (try split at h) <;> (try split at h) <;> (try split at h) <;> cases h)
+    | some k =>
+      simp only [Bool.not_true, Bool.false_eq_true, if_false]
+      by_cases hc : ¬ o'.gssKex = true ∧ (server.name ≠ k.name ∨ server.blob ≠ k.blob)
+      · simp [hc]
+      · simp only [hc, if_false]
+        simp [authStep]; constructor <;> (intro h; split at h <;> (try split at h) <;> (try split at h) <;> (try split at h) <;> cases h)
 
 /-! ## non-vacuity -/
 
